@@ -108,10 +108,12 @@ inline std::string line_role(Cat &C, const std::string &l) {
 // cut-and-choose protocols re-read 640 MiB line buffers per round: their structured fields are sampled in quick
 inline bool heavy(const std::string &proto) { return proto.compare(0, 12, "tmcg/stackeq") == 0 || proto == "rabin/key-nizk"; }
 inline size_t blocks_of(const std::string &proto) {
-	if (proto == "rabin/key-nizk") return 2;
+	auto has = [&](const char *x) { return proto.find(x) != std::string::npos; };
+	if (proto == "rabin/key-nizk") return 4;
 	if (heavy(proto)) return 6;
-	if (proto == "tmcg/maskcard-qr" || proto == "tmcg/cardsecret-qr") return 3;
-	if (proto.compare(0, 6, "hoogh/") == 0 || proto.compare(0, 10, "tmcg/hoogh") == 0 || proto.compare(0, 6, "groth/") == 0 || proto.compare(0, 10, "tmcg/groth") == 0) return 2;
+	if (proto == "tmcg/maskcard-qr" || proto == "tmcg/cardsecret-qr") return 4;
+	if (has("publiccoin") || proto == "tmcg/groth" || proto == "tmcg/hoogh") return 4;        // every challenge is a two-party coin flip
+	if (has("hoogh") || has("groth")) return 2;
 	return 1;
 }
 
@@ -168,7 +170,9 @@ inline std::vector<LineMut> gen_line_muts(Cat &C, const std::vector<std::string>
 					else if (tag == "crs") role = cls == "bit" ? "crs.b" : "crs.r";                     // Rabin-type root / parity bit of a QR card secret
 					std::vector<VMut> VM = value_muts(C, cls, v, full, ni_qr);
 					for (size_t i = 0; i < VM.size(); i++) {
-						if (!full && heavy(proto) && ((rot++) % 3) != 0) continue;      // quick: every third (field, mutation) pair, rotating
+						// quick: every third (field, mutation) pair, rotating (Rabin key text: every ninth - each field is bound by
+						// the self-signature over the whole text and one check costs 500 Miller-Rabin rounds)
+						if (!full && heavy(proto) && ((rot++) % (proto == "rabin/key-nizk" ? 9 : 3)) != 0) continue;
 						push((int)j, role, VM[i].mut, f, with(VM[i].text), VM[i].judged, LineMut::REPL, VM[i].why);
 					}
 					if (full) push((int)j, role, "empty", f, with(""), true);
